@@ -5,16 +5,21 @@ package rules
 // A value's range is [Pos() before, Pos() after) of its reader (C03.range). A reader that consumes
 // bits fails at the end of the buffer, so a range can only leave the buffer through a value that is
 // created WITHOUT consuming anything (zero-length scalar, empty compound) at a position beyond the
-// end. Two places decide that:
-//   - trySeekAbs, the only way a decoder moves the position without reading: the target must be
-//     established to lie within [.., Len()] before the seek;
-//   - readers that test the remaining input themselves (request > BitsLeft()-derived amount => error):
-//     that test has to stand before every returning path that does not report an error - a
-//     zero-length fast path in front of it succeeds beyond the end.
+// end. Hence the invariant "the position of every decoder is <= the length of its reader", which is
+// decided by classifying every instruction of pkg/decode that moves a position without reading
+// (SeekBits on a reader) and every place a decoder gets its reader:
+//   - trySeekAbs (behind SeekAbs/SeekRel/TrySeek*, FramedFn/LimitedFn's advance, TryBitBufLen):
+//     pos <= Len() is established before the seek; the restoring seek goes to an earlier Pos();
+//   - TryPeek*: whatever they do in between, every exit is back at the saved position (C03.readers);
+//   - the relative advance over a nested decode (Format / TryFieldFormat / TryFieldFormatLen): by
+//     the extent of a tree decoded inside a bitiox.Range-checked window (C03.sub, C03.rebase, C03.bitiox);
+//   - RangeFn: the sub-decoder starts at firstBit of a sub-reader of length firstBit+nBits: needs nBits >= 0;
+//   - D.bitBuf is assigned only by newDecoder, fieldDecoder and RangeFn.
+// With the invariant in place a reader-level "request > BitsLeft()" test placed after a zero-length
+// fast path is behaviour preserving, so no such test is required here.
 
 import (
 	"go/token"
-	"go/types"
 
 	"golang.org/x/tools/go/ssa"
 
@@ -22,20 +27,18 @@ import (
 )
 
 func c03Inside(r *fw.Run, c *c03x) {
-	ru := r.Rule("C03.inside", "no value is created beyond the end of its buffer: trySeekAbs establishes pos <= length of d's buffer before it moves the position (nothing else moves it without reading); every reader of pkg/decode that rejects a request larger than the remaining input (a comparison with a BitsLeft()-derived amount whose failing arm returns an error) has that test on every path to a return that does not report a fresh error, so a zero-length request beyond the end is an error too", 4)
+	ru := r.Rule("C03.inside", "the position of a decoder never exceeds the length of its reader, so nothing (empty compound, zero-width value) is created beyond the end of the buffer: every SeekBits in pkg/decode is one of - trySeekAbs's target seek behind an established pos <= Len() and its restore to an earlier Pos(); a seek inside TryPeek* (exits restored: C03.readers); the relative advance over a nested decode in the nested-format functions (C03.sub); RangeFn's start seek on its own sub-reader with nBits >= 0 established; a pure position query - and D.bitBuf is assigned only by newDecoder, fieldDecoder and RangeFn", 15)
 	p := c.p
-	blFn := p.Fn(c03D + "BitsLeft")
-	tblFn := p.Fn(c03D + "TryBitsLeft")
 	lenFn := p.Fn(c03D + "Len")
 	tlenFn := p.Fn(c03D + "TryLen")
 	tsa := c.fn(ru, c03D+"trySeekAbs")
-	if blFn == nil || tblFn == nil || lenFn == nil || tlenFn == nil {
-		ru.Undecided("anchor", "", "BitsLeft/TryBitsLeft/Len/TryLen of *decode.D not found")
+	posFn := p.Fn(c03D + "Pos")
+	if lenFn == nil || tlenFn == nil {
+		ru.Undecided("anchor", "", "Len/TryLen of *decode.D not found")
 		return
 	}
 
-	// derivedFrom: v is computed from a call of one of fns on decoder d by integer conversions and
-	// arithmetic with other operands (bytesLeft := d.BitsLeft() / 8)
+	// derivedFrom: v is the result of a call of one of fns on decoder d (through integer conversions only)
 	var derivedFrom func(v ssa.Value, d ssa.Value, depth int, fns ...*ssa.Function) bool
 	derivedFrom = func(v ssa.Value, d ssa.Value, depth int, fns ...*ssa.Function) bool {
 		if depth > 12 {
@@ -62,11 +65,6 @@ func c03Inside(r *fw.Run, c *c03x) {
 			}
 		case *ssa.Convert:
 			return derivedFrom(x.X, d, depth+1, fns...)
-		case *ssa.BinOp:
-			switch x.Op {
-			case token.QUO, token.MUL, token.ADD, token.SUB, token.SHR, token.SHL:
-				return derivedFrom(x.X, d, depth+1, fns...) || derivedFrom(x.Y, d, depth+1, fns...)
-			}
 		}
 		return false
 	}
@@ -105,17 +103,6 @@ func c03Inside(r *fw.Run, c *c03x) {
 		}
 		return 1, true
 	}
-	freshError := func(v ssa.Value) bool {
-		switch x := v.(type) {
-		case *ssa.MakeInterface:
-			return true
-		case *ssa.Call:
-			n := fw.CalleeName(x)
-			return n == "fmt.Errorf" || n == "errors.New"
-		}
-		return false
-	}
-
 	// --- (1) the seek
 	if tsa != nil && len(tsa.Params) == 3 {
 		d, pos := ssa.Value(tsa.Params[0]), ssa.Value(tsa.Params[1])
@@ -170,58 +157,99 @@ func c03Inside(r *fw.Run, c *c03x) {
 		ru.Check(bounded, "trySeekAbs:inside-buffer", c.at(tsa), "pos <= Len() established before the seek", "trySeekAbs moves the position to any pos the decoder computed, also beyond the end of the buffer (the readers' SeekBits accept that): whatever is then created without reading - an empty struct/array, a zero-width number, an empty string where the reader has no test of its own - is linked with a range outside the buffer, and the root's range is stretched past the buffer's length")
 	}
 
-	// --- (2) readers with a remaining-input test
-	nReaders := 0
+	c03InsideMoves(ru, c, posFn)
+}
+
+// c03InsideMoves classifies every position move of pkg/decode.
+func c03InsideMoves(ru *fw.Rule, c *c03x, posFn *ssa.Function) {
+	p := c.p
+	tsa := p.Fn(c03D + "trySeekAbs")
+	rangeFn := p.Fn(c03D + "RangeFn")
+	bbr := p.Fn(c03D + "BitBufRange")
+	sub := map[*ssa.Function]bool{}
+	for _, row := range c03SubTable {
+		if f := p.Fn(c03D + row.fn); f != nil {
+			sub[f] = true
+		}
+	}
+	ord := map[string]int{}
+	nMoves := 0
 	for _, f := range p.FqFunctions() {
-		if f.Parent() != nil || pkgRel(f) != "pkg/decode" || f.Signature.Recv() == nil || !c.isNamed(f.Signature.Recv().Type(), c.dT) {
+		if pkgRel(f) != "pkg/decode" {
 			continue
 		}
-		res := f.Signature.Results()
-		if res.Len() < 2 || !types.Identical(res.At(res.Len()-1).Type(), types.Universe.Lookup("error").Type()) {
-			continue
-		}
-		d := ssa.Value(f.Params[0])
-		isLeft := func(v ssa.Value) bool { return derivedFrom(v, d, 0, blFn, tblFn) }
-		pass := map[[2]*ssa.BasicBlock]bool{}
-		var tests []*ssa.BasicBlock
-		for _, b := range f.Blocks {
-			ex, ok := exceedsEdge(b, isLeft)
-			if !ok {
-				continue
+		top := fw.Top(f)
+		fw.EachInstr(f, func(ins ssa.Instruction) {
+			call, ok := ins.(*ssa.Call)
+			if !ok || !call.Common().IsInvoke() || call.Common().Method.Name() != "SeekBits" || len(call.Common().Args) != 2 {
+				return
 			}
-			// a rejecting test: a fresh error is returned somewhere behind the exceeding edge
-			// (directly, or after further conditions that weaken the test)
-			rejecting := false
-			for _, rb := range f.Blocks {
-				if ret, isRet := rb.Instrs[len(rb.Instrs)-1].(*ssa.Return); isRet && freshError(ret.Results[len(ret.Results)-1]) &&
-					(rb == b.Succs[ex] || b.Succs[ex].Dominates(rb)) {
-					rejecting = true
+			amt, whence := call.Common().Args[0], call.Common().Args[1]
+			wh, whOK := c03ConstInt(whence)
+			if k, isK := c03ConstInt(amt); isK && k == 0 && whOK && wh == 1 {
+				return // position query
+			}
+			nMoves++
+			key := "move|" + fw.ShortFn(top)
+			ord[key]++
+			if ord[key] > 1 {
+				key += "#" + c03Itoa(ord[key])
+			}
+			pos := p.Rel(call.Pos())
+			switch {
+			case top == tsa && f == tsa:
+				ru.Ok(key, pos, "trySeekAbs: target behind pos <= Len() (trySeekAbs:inside-buffer), restore to an earlier Pos() (C03.seek trySeekAbs:restore)")
+			case len(top.Name()) > 7 && top.Name()[:7] == "TryPeek" && top.Signature.Recv() != nil && c.isNamed(top.Signature.Recv().Type(), c.dT):
+				ru.Ok(key, pos, "inside a peek: every exit is back at the saved position (C03.readers "+top.Name()+":exit*)")
+			case sub[top] && f == top && whOK && wh == 1:
+				ru.Ok(key, pos, "relative advance over a nested decode (C03.sub "+top.Name()+":advance, :adopt-after-test, :range-option)")
+			case top == rangeFn && f == rangeFn && rangeFn != nil && len(rangeFn.Params) == 4:
+				// the sub-decoder starts at firstBit of BitBufRange(0, firstBit+nBits): inside iff nBits >= 0
+				d, firstBit, nBits := ssa.Value(f.Params[0]), ssa.Value(f.Params[1]), ssa.Value(f.Params[2])
+				good := whOK && wh == 0 && c.canon(amt) == firstBit
+				if bc := c.isCallOf(call.Common().Value, bbr, d); bc == nil {
+					good = false
 				}
+				e := fw.NewPolyEnv(f)
+				nonneg := e.Proves(call.Block(), fw.Cmp{P: e.Of(nBits), Rel: fw.GE})
+				if !nonneg {
+					fw.EachInstr(f, func(i2 ssa.Instruction) {
+						hc, isCall := i2.(*ssa.Call)
+						if !isCall || nonneg || !c03Before(hc, call) {
+							return
+						}
+						h := hc.Common().StaticCallee()
+						if h == nil || h.Blocks == nil || pkgRel(h) != "pkg/decode" {
+							return
+						}
+						for j, a := range hc.Common().Args {
+							if c.canon(a) == nBits && j < len(h.Params) && c03Ensures(h, j, 0) {
+								nonneg = true
+							}
+						}
+					})
+				}
+				ru.Check(good && nonneg, "RangeFn:start-inside-window", pos, "sub-reader.SeekBits(firstBit, SeekStart) with nBits >= 0 established", "RangeFn: the sub-decoder is positioned at firstBit of a sub-reader that is firstBit+nBits long without nBits >= 0 being established (only FramedFn/LimitedFn test it, decoders call RangeFn directly with computed sizes): with a negative nBits the position lies beyond the end of the window (beyond the buffer when firstBit > its length), and an empty struct/array or zero-width value created there has a range outside the buffer")
+			default:
+				ru.Fail(key, pos, fw.ShortFn(top)+" moves a reader's position (SeekBits) outside the checked mechanisms (trySeekAbs, peeks, nested-format advance, RangeFn): the position can end up beyond the end of the buffer, where zero-length values get ranges outside it")
 			}
-			if !rejecting {
-				continue
-			}
-			tests = append(tests, b)
-			pass[[2]*ssa.BasicBlock{b, b.Succs[1-ex]}] = true
-		}
-		if len(tests) == 0 {
-			continue
-		}
-		nReaders++
-		key := "left-guards-every-success|" + fw.ShortFn(f)
-		bad := ""
-		for _, b := range f.Blocks {
-			ret, ok := b.Instrs[len(b.Instrs)-1].(*ssa.Return)
-			if !ok || freshError(ret.Results[len(ret.Results)-1]) {
-				continue
-			}
-			if c03ReachesAvoiding(f.Blocks[0], b, nil, pass) {
-				bad = p.Rel(ret.Pos())
-			}
-		}
-		ru.Check(bad == "", key, c.at(f), "every return without a fresh error lies behind the remaining-input test", fw.ShortFn(f)+": a path returns (at "+bad+") without having passed the test that rejects a request larger than the remaining input: a request that needs no bits (length 0) succeeds at a position beyond the end of the buffer and the field gets a range outside the buffer")
+		})
 	}
-	if nReaders == 0 {
-		ru.Undecided("left-guards-every-success", "", "no reader with a remaining-input test found in pkg/decode")
+	if nMoves == 0 {
+		ru.Undecided("move", "", "no SeekBits call found in pkg/decode")
 	}
+	// who gives a decoder its reader
+	owners := map[string]bool{"pkg/decode.newDecoder": true, c03D + "fieldDecoder": true, c03D + "RangeFn": true}
+	for _, f := range p.FqFunctions() {
+		for _, fs := range c.fieldStores(f, c.dT, "bitBuf") {
+			top := fw.ShortFn(fw.Top(f))
+			key := "bitbuf|" + top
+			ord[key]++
+			if ord[key] > 1 {
+				key += "#" + c03Itoa(ord[key])
+			}
+			ru.Check(owners[top] && fs.sub == "", key, p.Rel(fs.st.Pos()), "D.bitBuf assigned by a decoder constructor", top+" assigns D.bitBuf: a decoder reads from (and records positions of) a reader whose position and length none of the checked constructors established")
+		}
+	}
+	_ = posFn
 }
